@@ -140,11 +140,19 @@ def _run(ctx, mode):
             todo = [(name, TRANSFORMS[name])]
         for tname, T in todo:
             g = make_cfg(ctx, sk, ws)
+            # other transformations applied to the SAME grammar object first (their results are discarded):
+            # cached state (_trim_cache, cached properties) must not leak into the next answer
+            pre_ok = True
+            for pname in P.get("pre", []):
+                okp, _ = ctx.call(f"{pname} (before {tname})", TRANSFORMS[pname], g, sig=f"{pname.split('(')[0]}:exception")
+                pre_ok = pre_ok and okp
+            if P.get("pre"):
+                tname = f"{'+'.join(P['pre'])} then {tname}"
             ok, out = ctx.call(f"{tname}", T, g, sig=f"{tname.split('(')[0]}:exception")
             if not ok:
                 continue
             if mode == "structure":
-                structure(ctx, tname, g, out, in_rules)
+                structure(ctx, tname.split(" then ")[-1], g, out, in_rules)
                 continue
             orules = cfg_rules(ctx, out)
             for x in strings:
@@ -170,7 +178,7 @@ def jobs(tier, seed, mode="language"):
     out = []
     quick = tier == "quick"
     L = 3 if quick else 4
-    shapes = ["G-NU", "G-UC", "G-NULL3", "G-DUP"] if quick else ["G-NU", "G-UC", "G-NULL3", "G-DUP", "G-CAT", "G-LR", "G-DEAD", "G-TRI", "G-PAL", "G-MUT"]
+    shapes = ["G-NU", "G-UC", "G-NULL3", "G-DUP", "G-DUP2", "G-HEADLESS"] if quick else ["G-NU", "G-UC", "G-NULL3", "G-DUP", "G-DUP2", "G-HEADLESS", "G-NUC", "G-CAT", "G-LR", "G-DEAD", "G-TRI", "G-PAL", "G-MUT"]
     groups = [["trim", "cotrim", "binarize", "separate_start", "separate_terminals", "rename", "renumber"],
               ["nullaryremove", "nullaryremove(binarize=False)"],
               ["nullaryremove(trim=False)", "nullaryremove(binarize=False,trim=False)"],
@@ -184,6 +192,13 @@ def jobs(tier, seed, mode="language"):
         for gidx, grp in enumerate(groups):
             bits = [0, 1] if sk.K >= 7 else [0]
             out += split_job(dict(case=mode, params=dict(shape=sh, strings=strings if mode == "language" else [], transforms=grp)), bits)
+    # sequences on one object: a transformation applied after others on the same grammar object
+    for sh in (["G-DUP", "G-NU"] if quick else ["G-DUP", "G-NU", "G-DEAD", "G-UC", "G-NULL3"]):
+        sk = grammar(sh)
+        strings = [list(x) for x in all_strings(sk.V, 2)]
+        for pre in (["cotrim"], ["trim"], ["cnf"], ["nullaryremove", "unarycycleremove"]):
+            out += split_job(dict(case=mode, params=dict(shape=sh, strings=strings if mode == "language" else [], pre=pre,
+                                                         transforms=["trim", "cotrim", "cnf", "nullaryremove", "unaryremove", "unarycycleremove"])), [0, 1] if sk.K >= 7 else [0])
     out.append(dict(case=mode, params=dict(shape="G-S1", strings=[[], ["a"], ["a", "a"]], transforms=["cnf", "trim"], canary=True)))
     seeds = [1 + seed % 1000] if quick else [0, 1 + seed % 1000]
     return [dict(j, hashseed=s) for j in out for s in (seeds if not j["params"].get("canary") else seeds[:1])]
